@@ -25,7 +25,7 @@ use syscalls::Error as SyscallError;
 //@item src/resolvers.rs :: const MAX_SYMLINK_TRAVERSALS
 //@item src/resolvers.rs :: enum PartialLookup | sub.PartialLookup
 impl RawComponents<'_> {
-//@use utils.path.RawComponents.prepend__static
+//@use utils.path.RawComponents.prepend
 }
 //@use opath.check_current__static
 //@use opath.may_follow_link__static
